@@ -154,6 +154,17 @@ def run_dimadaptive(case, res):
 
 
 # ---------------------------------------------------------------------------------------------------------
+def dw_grid(cfg):
+    from sparseSpACE import Grid as G
+    a, b = np.array(cfg["a"], dtype=float), np.array(cfg["b"], dtype=float)
+    kind = cfg.get("grid", "trapezoidal")
+    if kind == "highorder":
+        return G.GlobalHighOrderGrid(a=a, b=b, boundary=True, max_degree=cfg.get("max_degree", 5), split_up=cfg.get("split_up", True))
+    if kind == "simpson":
+        return G.GlobalSimpsonGrid(a=a, b=b, boundary=True)
+    return G.GlobalTrapezoidalGrid(a=a, b=b, boundary=cfg["boundary"])
+
+
 class ObsDW(hooks.Observer):
     def __init__(self, res, cfg, comps, err):
         super().__init__(cfg["steps"], err, max_points=3000)
@@ -162,11 +173,10 @@ class ObsDW(hooks.Observer):
 
     def after_evaluate(self, c, r):
         super().after_evaluate(c, r)
-        from sparseSpACE.Grid import GlobalTrapezoidalGrid
         where = "evaluation #%d" % self.evals
         reported = np.array(c.operation.get_result(), dtype=float)
         f2 = hooks.VFunction(self.comps)
-        g2 = GlobalTrapezoidalGrid(a=np.array(self.cfg["a"]), b=np.array(self.cfg["b"]), boundary=self.cfg["boundary"])
+        g2 = dw_grid(self.cfg)
         parts = []
         for g in c.scheme:
             coords, levels, _ = c.get_point_coord_for_each_dim(g.levelvector)
@@ -190,13 +200,20 @@ def run_dimwise(case, res):
     rng = random.Random(case["seed"])
     cfg = dimwise.gen_config(rng, case.get("tier", "quick"), dims=(1, 2, 2, 3), max_steps=8)
     cfg["profile"] = rng.choice(["real", "real", "uniform", "sparse", "ties", "hotspot", "altdim"])
+    # nodal global grids whose 1-D weights are not the plain trapezoidal ones as well (the surplus grid stays trapezoidal)
+    cfg["grid"] = rng.choice(["trapezoidal", "highorder"])
+    if cfg["grid"] != "trapezoidal":
+        cfg["boundary"] = True
+        cfg["max_degree"] = rng.choice([2, 3, 5])
+        cfg["split_up"] = rng.random() < 0.5
     d = cfg["d"]
     comps = make_components(rng, d, case["seed"])
     res.sample = {"config": cfg}
     f = hooks.VFunction(comps)
     err = hooks.RandErr(cfg["errseed"], cfg["profile"], d, cfg["a"], cfg["b"])
     obs = ObsDW(res, cfg, comps, err)
-    c = dimwise.build(cfg, f, obs)
+    c = dimwise.build(cfg, f, obs, grid=dw_grid(cfg))
+    res.count("grid_" + cfg["grid"])
     dimwise.run(c, cfg, err)
     final = np.array(c.operation.get_result(), dtype=float)
     # (d) points and weights of the final state
@@ -214,7 +231,7 @@ def run_dimwise(case, res):
         ft = hooks.VFunction(comps)
         et = hooks.RandErr(cfg["errseed"], cfg["profile"], d, cfg["a"], cfg["b"])
         ot = hooks.Observer(10 ** 9, et, max_depth=10 ** 9, max_points=None)
-        ct = dimwise.build(cfg, ft, ot)
+        ct = dimwise.build(cfg, ft, ot, grid=dw_grid(cfg))
         r = dimwise.run(ct, cfg, et, max_evaluations=npts - 1, reevaluate_at_end=rev)
         outs.append(None if r is None else np.array(r[3], dtype=float))
     if outs[0] is not None and outs[1] is not None:
@@ -240,11 +257,10 @@ class ObsES(hooks.Observer):
 
     def after_evaluate(self, c, r):
         super().after_evaluate(c, r)
-        from sparseSpACE.Grid import TrapezoidalGrid
         where = "evaluation #%d" % self.evals
         reported = np.array(c.operation.get_result(), dtype=float)
         f2 = hooks.VFunction(self.comps)
-        g2 = TrapezoidalGrid(a=np.array(self.cfg["a"]), b=np.array(self.cfg["b"]), boundary=self.cfg["boundary"])
+        g2 = extsplit.make_grid(self.cfg)
         parts = []
         for area in extsplit.leaves(c):
             for g in c.scheme:
@@ -270,9 +286,19 @@ def run_extsplit(case, res):
     rng = random.Random(case["seed"])
     cfg = extsplit.gen_config(rng, case.get("tier", "quick"), versions=(0,), dims=(2, 2, 3))
     cfg["steps"] = min(cfg["steps"], 8)
+    # high-order local grids switch the automatic extend/split decision to the parent-estimation path
+    cfg["grid"] = rng.choice(["Trapezoidal", "Trapezoidal", "ClenshawCurtis", "GaussLegendre"])
+    if cfg["grid"] != "Trapezoidal":
+        cfg["boundary"] = True
+        cfg["automatic"] = rng.random() < 0.7
+        cfg["steps"] = min(cfg["steps"], 5)
+        # split_single_dim with a high-order grid aborts with the library's own sibling-count assertion on the
+        # unchanged tree (loud, no value reported; see DESIGN.md section 8 "observations") -> not generated
+        cfg["single_dim"] = False
     d = cfg["d"]
     comps = make_components(rng, d, case["seed"])
     res.sample = {"config": cfg}
+    res.count("grid_" + cfg["grid"])
     f = hooks.VFunction(comps)
     err = extsplit.make_err(cfg)
     obs = ObsES(res, cfg, comps, err if cfg["profile"] != "real" else None)
